@@ -9,8 +9,12 @@ func vrtB2b(b bool, v byte) byte { return vrtIteByte(b, v, 0) }
 // vrtEncodeCheck: m was built through the API to carry the fields of exp.
 func vrtEncodeCheck(m Message, exp *specPkt) {
 	want := specEncode(exp)
-	l := m.Len()
-	vrtAssert("C03.len_is_wire_size", l == len(want))
+	// Encode must not depend on an earlier Len() call (callers that encode into a scratch buffer of
+	// sufficient size never ask for the length first): both orders
+	if vrtBool("len_before_encode") {
+		l := m.Len()
+		vrtAssert("C03.len_is_wire_size", l == len(want))
+	}
 	buf := make([]byte, len(want)+2)
 	n, err := m.Encode(buf)
 	vrtAssert("C03.encode_ok", err == nil)
